@@ -45,26 +45,15 @@ example : ['A', 'T', 'G'] ∈ GCSpec.codons := by decide
 
 /-! ## plus strand, all sequences, all start offsets -/
 
-/-- New implementation, plus strand: for every code, every canonical sequence and every start offset,
-`translate` is the table mapped over the successive codons — *provided fewer than 256 codons are
-translated* (see `translate_plus_counter`). -/
-theorem translate_plus_spec_partial (code : Nat × List Char × List Char) (hc : code ∈ newCodes)
-    (s : List Char) (start : Nat) (hs : Canon s) (hsmall : (s.length - start) / 3 < 256) :
+/-- New implementation, plus strand, FULL strength: for every code, every canonical sequence of any
+length and every start offset, `translate` is the table mapped over the successive codons.
+(Before commit 4cf1b0e7f this needed "< 256 codons": the k-mer index array switched to uint16.) -/
+theorem translate_plus_spec (code : Nat × List Char × List Char) (hc : code ∈ newCodes)
+    (s : List Char) (start : Nat) (hs : Canon s) :
     newTranslate newDna code.2.1 s start false = GCSpec.translate code.2.1 (s.drop start) :=
-  new_translate_plus code.2.1 (plus_codon code hc) s start hs hsmall
+  new_translate_plus code.2.1 (plus_codon code hc) s start hs
 
-example : Canon ['A', 'T', 'G', 'A', 'A', 'A', 'T', 'A'] ∧ (8 - 1) / 3 < 256 := by decide
-
-/- FULL STATEMENT (not proved): `translate_plus_spec` = the statement above without `hsmall`.
-   It is false for the code as written: `KmerAlphabet.to_indices` allocates its result with
-   `get_array_type(size)` where `size` is the NUMBER OF K-MERS (not the number of k-mer states), so from
-   256 codons on the index array is uint16 and `seq.tobytes()` hands two bytes per codon to the byte
-   translation table: every amino acid is followed by a spurious `code_sequence[0]`. -/
-
-/-- Witness: 256 codons `AAA` translate to 512 characters under the model of the code as written. -/
-theorem translate_plus_counter : ∃ code ∈ newCodes,
-    newTranslate newDna code.2.1 (List.replicate 768 'A') 0 false ≠
-      GCSpec.translate code.2.1 ((List.replicate 768 'A').drop 0) := by decide +kernel
+example : Canon ['A', 'T', 'G', 'A', 'A', 'A', 'T', 'A'] := by decide
 
 /-- Old implementation: for every code, canonical sequence and start offset inside the sequence,
 `translate` is the table mapped over the successive codons (no length restriction). -/
@@ -75,13 +64,12 @@ theorem old_translate_spec (code : Nat × List Char × List Char) (hc : code ∈
 
 example : Canon ['A', 'T', 'G', 'A'] ∧ 2 < ['A', 'T', 'G', 'A'].length := by decide
 
-/-- Old and new `translate` agree on the plus strand for every code ID present in both modules
-(same 256-codon proviso for the new implementation). -/
+/-- Old and new `translate` agree on the plus strand for every code ID present in both modules, every
+canonical sequence and every start offset inside it. -/
 theorem old_new_translate_agree (c d : Nat × List Char × List Char) (hc : c ∈ oldCodes) (hd : d ∈ newCodes)
-    (hid : c.1 = d.1) (s : List Char) (start : Nat) (hs : Canon s) (hstart : start < s.length)
-    (hsmall : (s.length - start) / 3 < 256) :
+    (hid : c.1 = d.1) (s : List Char) (start : Nat) (hs : Canon s) (hstart : start < s.length) :
     oldTranslate c.2.1 s start = .ok (newTranslate newDna d.2.1 s start false) := by
-  rw [translate_plus_spec_partial d hd s start hs hsmall, old_translate_spec c hc s start hs hstart,
+  rw [translate_plus_spec d hd s start hs, old_translate_spec c hc s start hs hstart,
     tables_agree c hc d hd hid]
 
 example : ∃ c ∈ oldCodes, ∃ d ∈ newCodes, c.1 = d.1 := by decide
@@ -92,33 +80,33 @@ example : ∃ c ∈ oldCodes, ∃ d ∈ newCodes, c.1 = d.1 := by decide
 the translation of the reverse complement of the slice *after* it has been cut to a multiple of three
 on the plus strand. -/
 theorem translate_minus_actual (code : Nat × List Char × List Char) (hc : code ∈ newCodes)
-    (s : List Char) (start : Nat) (hs : Canon s) (hsmall : (s.length - start) / 3 < 256) :
+    (s : List Char) (start : Nat) (hs : Canon s) :
     newTranslate newDna code.2.1 s start true =
       GCSpec.translate code.2.1 (GCSpec.rc (trunc3 (s.drop start))) :=
-  new_translate_minus code.2.1 (minus_codon code hc) s start hs hsmall
+  new_translate_minus code.2.1 (minus_codon code hc) s start hs
 
 /-- … which, for a frame offset `k < 3`, is reverse-strand frame `(len - k) % 3`, not frame `k`. -/
 theorem translate_minus_frame (code : Nat × List Char × List Char) (hc : code ∈ newCodes)
-    (s : List Char) (k : Nat) (hk : k < 3) (hs : Canon s) (hsmall : (s.length - k) / 3 < 256) :
+    (s : List Char) (k : Nat) (hk : k < 3) (hs : Canon s) :
     newTranslate newDna code.2.1 s k true = GCSpec.frame code.2.1 s true ((s.length - k) % 3) := by
-  rw [translate_minus_actual code hc s k hs hsmall, rc_trunc_frame code.2.1 s k hk]
+  rw [translate_minus_actual code hc s k hs, rc_trunc_frame code.2.1 s k hk]
   rfl
 
 /-- Reverse strand = translation of the explicit reverse complement from `start` on — proved under the
 extra hypothesis `(len - start) % 3 = start` (e.g. `start = 0` and a length divisible by three). -/
 theorem translate_minus_spec_partial (code : Nat × List Char × List Char) (hc : code ∈ newCodes)
-    (s : List Char) (start : Nat) (hs : Canon s) (hsmall : (s.length - start) / 3 < 256)
+    (s : List Char) (start : Nat) (hs : Canon s)
     (hframe : (s.length - start) % 3 = start) :
     newTranslate newDna code.2.1 s start true = GCSpec.translate code.2.1 ((GCSpec.rc s).drop start) := by
   have hk : start < 3 := by omega
-  have := translate_minus_frame code hc s start hk hs hsmall
+  have := translate_minus_frame code hc s start hk hs
   rw [hframe] at this
   exact this
 
 example : Canon ['A', 'T', 'G', 'A', 'A', 'A', 'T', 'A'] ∧ (8 - 1) % 3 = 1 := by decide
 
-/- FULL STATEMENT (not proved): `translate_minus_spec` = the statement above without `hframe` (and
-   without `hsmall`).  It is false for the code as written (`translate_minus_counter`): `translate`
+/- FULL STATEMENT (not proved): `translate_minus_spec` = the statement above without `hframe` .
+   It is false for the code as written (`translate_minus_counter`): `translate`
    drops `start` characters and the incomplete codon from the PLUS strand before reversing, so the
    reading frame on the minus strand is `(len - start) % 3`.  `GeneticCode.sixframes` of the old module
    (and the docstring "returns the translation of the reverse complement sequence") use frame `start`. -/
@@ -135,19 +123,18 @@ theorem translate_minus_counter : ∃ code ∈ newCodes,
 /-- New `sixframes` on any canonical sequence: the three plus frames are right; the minus frame labelled
 `k` is reverse-strand frame `(len - k) % 3` (a relabelling of the three correct minus-strand frames). -/
 theorem sixframes_spec_partial (code : Nat × List Char × List Char) (hc : code ∈ newCodes)
-    (s : List Char) (hs : Canon s) (hsmall : s.length / 3 < 256) :
+    (s : List Char) (hs : Canon s) :
     newSixframes newDna code.2.1 s =
       [(false, 0, GCSpec.frame code.2.1 s false 0), (false, 1, GCSpec.frame code.2.1 s false 1),
        (false, 2, GCSpec.frame code.2.1 s false 2),
        (true, 0, GCSpec.frame code.2.1 s true ((s.length - 0) % 3)),
        (true, 1, GCSpec.frame code.2.1 s true ((s.length - 1) % 3)),
        (true, 2, GCSpec.frame code.2.1 s true ((s.length - 2) % 3))] := by
-  have p := fun k (h : (s.length - k) / 3 < 256) => translate_plus_spec_partial code hc s k hs h
-  have m := fun k (hk : k < 3) (h : (s.length - k) / 3 < 256) => translate_minus_frame code hc s k hk hs h
+  have p := fun k => translate_plus_spec code hc s k hs
+  have m := fun k (hk : k < 3) => translate_minus_frame code hc s k hk hs
   simp only [newSixframes, List.flatMap_cons, List.flatMap_nil, List.map_cons, List.map_nil,
     List.append_nil, List.cons_append, List.nil_append]
-  rw [p 0 (by omega), p 1 (by omega), p 2 (by omega), m 0 (by omega) (by omega), m 1 (by omega) (by omega),
-    m 2 (by omega) (by omega)]
+  rw [p 0, p 1, p 2, m 0 (by omega), m 1 (by omega), m 2 (by omega)]
   rfl
 
 example : Canon ['A', 'T', 'G', 'G', 'G', 'G', 'T', 'A', 'A', 'C', 'A', 'T'] := by decide
@@ -179,16 +166,16 @@ example : Canon ['A', 'T', 'G'] ∧ 3 ≤ ['A', 'T', 'G'].length := by decide
 
 /-! ## stop handling of `Sequence.get_translation` (canonical gap-free sequences) -/
 
-/-- New `Sequence.get_translation`: for every code, every non-empty canonical sequence (< 256 codons) and all
+/-- New `Sequence.get_translation`: for every code, every non-empty canonical sequence and all
 eight combinations of `incomplete_ok`, `include_stop`, `trim_stop`, the result is the specification's:
 a terminal stop is trimmed iff `trim_stop`, remaining stops are kept iff `include_stop` and rejected
 otherwise (a length not divisible by three is rejected when trimming with `incomplete_ok=False`). -/
 theorem get_translation_stop_rules (code : Nat × List Char × List Char) (hc : code ∈ newCodes)
-    (s : List Char) (hs : Canon s) (hne : s ≠ []) (hsmall : s.length / 3 < 256) (io is_ ts : Bool) :
+    (s : List Char) (hs : Canon s) (hne : s ≠ []) (io is_ ts : Bool) :
     newSeqGetTranslation newDna code.2.1 s io is_ ts =
       outcomeToExcept (GCSpec.getTranslation code.2.1 s io is_ ts) :=
   new_stop_rules code.2.1 (plus_codon code hc) (new_getitem_codon code hc)
-    (aa_not_gap_x code (List.mem_append_left _ hc)) s hs hne hsmall io is_ ts
+    (aa_not_gap_x code (List.mem_append_left _ hc)) s hs hne io is_ ts
 
 example : Canon ['A', 'T', 'G', 'T', 'A', 'A'] ∧ ['A', 'T', 'G', 'T', 'A', 'A'] ≠ [] := by decide
 
